@@ -37,6 +37,7 @@ type c12Loop struct {
 	cmpT   string // non-empty: the header test compares cmpT(v) with cmpT(bound)
 	rawN   string // non-empty: the bound, verbatim (an expression already of the counter's type)
 	rawS   string // non-empty: the start, verbatim
+	mirror bool   // the test is written with the counter as the RIGHT operand (`N > i` for `i < N`)
 	shape  string
 	native string
 	plain  string
@@ -86,17 +87,25 @@ func c12Gen(l *c12Loop, inner [2]string) {
 		body = "%INNER%"
 	}
 	hdr := fmt.Sprintf("hdr(%d, int64(%s))", id, v)
+	// tst writes the comparison `lhs op rhs`, with the operands exchanged (and the operator
+	// mirrored, so that it means the same) for a mirrored loop
+	tst := func(lhs, op, rhs string) string {
+		if l.mirror {
+			return rhs + " " + map[string]string{"<": ">", "<=": ">=", ">": "<", ">=": "<=", "!=": "!=", "==": "=="}[op] + " " + lhs
+		}
+		return lhs + " " + op + " " + rhs
+	}
 	var plain, nat string
 	switch l.shape {
 	case "for3":
-		plain = fmt.Sprintf("for %s := %s; %s %s %s; %s {\n%s\n}", v, S, tv, l.op, N, upd, body)
-		nat = fmt.Sprintf("begin(%d)\nfor %s := %s; %s && %s %s %s; %s {\nbody(%d)\n%s\n}", id, v, S, hdr, tv, l.op, N, upd, id, body)
+		plain = fmt.Sprintf("for %s := %s; %s; %s {\n%s\n}", v, S, tst(tv, l.op, N), upd, body)
+		nat = fmt.Sprintf("begin(%d)\nfor %s := %s; %s && %s; %s {\nbody(%d)\n%s\n}", id, v, S, hdr, tst(tv, l.op, N), upd, id, body)
 	case "while":
-		plain = fmt.Sprintf("%s := %s\nfor %s %s %s {\n%s\n%s\n}", v, S, tv, l.op, N, body, upd)
-		nat = fmt.Sprintf("%s := %s\nbegin(%d)\nfor %s && %s %s %s {\nbody(%d)\n%s\n%s\n}", v, S, id, hdr, tv, l.op, N, id, body, upd)
+		plain = fmt.Sprintf("%s := %s\nfor %s {\n%s\n%s\n}", v, S, tst(tv, l.op, N), body, upd)
+		nat = fmt.Sprintf("%s := %s\nbegin(%d)\nfor %s && %s {\nbody(%d)\n%s\n%s\n}", v, S, id, hdr, tst(tv, l.op, N), id, body, upd)
 	case "bottom":
-		plain = fmt.Sprintf("%s := %s\nfor {\n%s\n%s\nif !(%s %s %s) {\nbreak\n}\n}", v, S, body, upd, v, l.op, N)
-		nat = fmt.Sprintf("%s := %s\nbegin(%d)\nfor {\n%s\nbody(%d)\n%s\n%s\nif !(%s %s %s) {\nbreak\n}\n}", v, S, id, hdr, id, body, upd, v, l.op, N)
+		plain = fmt.Sprintf("%s := %s\nfor {\n%s\n%s\nif !(%s) {\nbreak\n}\n}", v, S, body, upd, tst(v, l.op, N))
+		nat = fmt.Sprintf("%s := %s\nbegin(%d)\nfor {\n%s\nbody(%d)\n%s\n%s\nif !(%s) {\nbreak\n}\n}", v, S, id, hdr, id, body, upd, tst(v, l.op, N))
 	case "multientry":
 		// the variable is conditionally re-seeded right before an init-less for: the loop header
 		// has two entering edges that carry different start values
@@ -108,8 +117,8 @@ func c12Gen(l *c12Loop, inner [2]string) {
 		plain = fmt.Sprintf("%s := %s\nfor {\n%s\nif !(%s %s %s) {\nbreak\n}\n%s\n}", v, S, body, v, l.op, N, upd)
 		nat = fmt.Sprintf("%s := %s\nbegin(%d)\nfor {\n%s\nbody(%d)\n%s\nif !(%s %s %s) {\nbreak\n}\n%s\n}", v, S, id, hdr, id, body, v, l.op, N, upd)
 	case "exittrue":
-		plain = fmt.Sprintf("%s := %s\nfor {\nif %s %s %s {\nbreak\n}\n%s\n%s\n}", v, S, tv, c12Neg(l.op), N, body, upd)
-		nat = fmt.Sprintf("%s := %s\nbegin(%d)\nfor {\n%s\nif %s %s %s {\nbreak\n}\nbody(%d)\n%s\n%s\n}", v, S, id, hdr, tv, c12Neg(l.op), N, id, body, upd)
+		plain = fmt.Sprintf("%s := %s\nfor {\nif %s {\nbreak\n}\n%s\n%s\n}", v, S, tst(tv, c12Neg(l.op), N), body, upd)
+		nat = fmt.Sprintf("%s := %s\nbegin(%d)\nfor {\n%s\nif %s {\nbreak\n}\nbody(%d)\n%s\n%s\n}", v, S, id, hdr, tst(tv, c12Neg(l.op), N), id, body, upd)
 	case "continue":
 		b2 := fmt.Sprintf("if %s%%2 == 0 {\ncontinue\n}\n%s", v, body)
 		plain = fmt.Sprintf("for %s := %s; %s %s %s; %s {\n%s\n}", v, S, v, l.op, N, upd, b2)
@@ -183,6 +192,22 @@ func c12Family(thorough bool) []*c12Func {
 							l := &c12Loop{id: 0, v: "i", typ: T, start: start, bound: bound, op: op, step: step, shape: shape}
 							c12Gen(l, [2]string{})
 							add(fmt.Sprintf("%s/%s/i%s%s/start=%s/step=%+d", T, shape, op, bound, start, step), []*c12Loop{l}, l.plain, l.native)
+						}
+					}
+				}
+			}
+		}
+	}
+	// the counter as the RIGHT operand of the test (`for i := 0; n > i; i++`, `if n <= i { break }`)
+	for _, T := range []string{"int", "uint8"} {
+		for _, shape := range []string{"for3", "while", "bottom", "exittrue"} {
+			for _, op := range []string{"<", "<=", ">", ">=", "!="} {
+				for _, step := range []int{1, 2, -1, -2} {
+					for _, start := range []string{"0", "7", "a"} {
+						for _, bound := range []string{"7", "10", "b"} {
+							l := &c12Loop{id: 0, v: "i", typ: T, start: start, bound: bound, op: op, step: step, shape: shape, mirror: true}
+							c12Gen(l, [2]string{})
+							add(fmt.Sprintf("%s/%s/mirrored:%s%s'i/start=%s/step=%+d", T, shape, bound, op, start, step), []*c12Loop{l}, l.plain, l.native)
 						}
 					}
 				}
@@ -267,7 +292,7 @@ func c12Family(thorough bool) []*c12Func {
 		}
 	}
 	// a start or bound that is ARITHMETIC in the narrow type on a parameter (it wraps for some arguments)
-	for _, T := range []string{"uint8", "int8"} {
+	for _, T := range []string{"uint8", "int8", "uint"} {
 		for _, shape := range []string{"for3", "while"} {
 			for _, op := range []string{"<", "<=", ">"} {
 				for _, step := range []int{1, -1} {
